@@ -107,14 +107,14 @@ theorem C10_host_delay_invariant (step : T → Action T V E) (b : Nat) (r : Runt
 /-- the single-thread case of the property: main alone, waiting for the host -/
 theorem C10_host_delay_single (step : T → Action T V E) (b n : Nat) (r : Runtime T V E) (m : Thread T E)
     (hq : r.runQueue = [m]) (hn : r.newThreads = []) (hm : m.isMain = true) (hp : m.pending = some n)
-    (hdone : m.done = false) :
+    (hdone : m.gone = false) :
     runN step b r = ⟨r, .pendingHost, 0, false⟩ := by
   have hs : Stuck r := ⟨hn, by simp [hq, Thread.canRun, hp, hdone]⟩
   rw [C10_host_delay_invariant step b r hs]
   simp [updateStatus, tryGetMain, hq, hm, Thread.status, hp]
 
 example : ∃ (r : Runtime Nat Nat Nat) (m : Thread Nat Nat), r.runQueue = [m] ∧ r.newThreads = [] ∧
-    m.isMain = true ∧ m.pending = some 2 ∧ m.done = false :=
+    m.isMain = true ∧ m.pending = some 2 ∧ m.gone = false :=
   ⟨{ runQueue := [{ id := 0, isMain := true, st := 0, pending := some 2 }], nextId := 1 }, _, rfl, rfl, rfl, rfl, rfl⟩
 
 
